@@ -1119,10 +1119,15 @@ def prt1(units, R):
     u = units['cJSON.c']
     # the parser's bound
     limit = None
-    for pf in ('parse_array', 'parse_object'):
-        if pf not in u.functions:
+    from .bnd import parse_family
+    try:
+        pfam = parse_family(u)
+    except AnalysisBroken:
+        pfam = [f for f in u.function_list if f.name.startswith('parse_')]
+    for pfn in pfam:
+        if pfn.body is None:
             continue
-        for b in u.functions[pf].cfg().nodes:
+        for b in pfn.cfg().nodes:
             if b.kind != 'branch':
                 continue
             p = cmp_parts(b.expr)
